@@ -55,6 +55,22 @@ def whole_column(ctx, repo):
 
     ctx.rule("W6", "inside a row loop an element of a pointer column (-1 = nobody) indexes an array or list only under a guard excluding negative values (dictionaries are safe)")
     ctx.rule("W7", "a whole-column rule whose result is data does not read, inside the loop that fills a mapping, the entry of the row a pointer refers to (forward references depend on the row order)")
+    from ._wholecol import id_value_findings
+
+    ctx.rule("W8", "a person pointer is compared with a number only as the sentinel test (>= 0, < 0, == -1, != -1): 0 is a valid id")
+    ctx.rule("W9", "an id, a pointer or the result of an id look-up is never used as a truth value (`id or default`, `if id:`)")
+    scanned = 0
+    seen_fd = set()
+    for mod, fd, kind in [*fns, *[(r.mod, r.node, "rule") for r in repo.rules]]:
+        if id(fd) in seen_fd:
+            continue
+        seen_fd.add(id(fd))
+        scanned += 1
+        for rid, key, ln, msg in id_value_findings(mod, fd):
+            ctx.ob(rid, ok=False, distinct=(mod.rel, fd.name, key))
+            ctx.violation(rid, f"{mod.rel}:{fd.name}|{key}", f"src/_gettsim/{mod.rel}:{ln} {fd.name}", msg)
+    ctx.ob("W8", ok=True, distinct="functions scanned", n=scanned)
+    ctx.ob("W9", ok=True, distinct="functions scanned", n=scanned)
     for mod, fd, kind in fns:
         fs = list(pointer_findings(mod, fd, kind))
         for rid in ("W6", "W7"):
